@@ -151,7 +151,7 @@ def drive(vm, run, inputs, calls, words, limit):
     return trace
 
 
-def machine(case, source=None, bits=None, growth=None):
+def new_machine(case, source=None, bits=None, growth=None):
     cls = F().ForthMachine32 if (bits or case["bits"]) == 32 else F().ForthMachine64
     init, factor = growth if growth is not None else case["growth"][0]
     return cls(source if source is not None else case["source"], case["stack"], case["recursion"], init, factor)
@@ -161,7 +161,7 @@ def try_compile(case, **kw):
     """(machine, None) or (None, message)"""
     from akshim.core import OtherNativeError
     try:
-        return machine(case, **kw), None
+        return new_machine(case, **kw), None
     except ValueError as e:
         return None, "ValueError: " + str(e).split("\n")[0][:200]
     except OtherNativeError as e:
@@ -196,6 +196,8 @@ def run_case(case):
         merr = None
     except MF.CompileError as e:
         model, merr = None, str(e)
+    except MF.Unspecified as e:
+        return {"tags": tags, "discarded": "undocumented source text: " + str(e), "nontrivial": False}
     vm, verr = try_compile(case)
     other, oerr = try_compile(case, bits=96 - case["bits"])
     if (vm is None) != (other is None):
@@ -255,7 +257,7 @@ def run_case(case):
     else:
         _compare_traces(found, mtrace_c, vtrace_c, model_c, "model" + (":calls" if calls else ""))
     if calls:
-        vm0 = machine(case)
+        vm0 = new_machine(case)
         vtrace0 = drive(vm0, vm0.run_code_py, inputs, [], words, len(mtrace0) + 2)
         unspec0 = hard_unspec(model)
         if not unspec0 and not found.items:
@@ -273,11 +275,11 @@ def run_case(case):
     # (a) determinism: the same machine again, and the C++ run() entry point on a fresh machine
     again = drive(vm0, lambda ins: (vm0.begin_again(), vm0.resume_code())[1], inputs, [], words, len(ref) + 2)
     _same(found, "determinism:second-run", ref, again)
-    vm1 = machine(case)
+    vm1 = new_machine(case)
     _same(found, "determinism:cpp-run", ref, drive(vm1, vm1.run_code, inputs, [], words, len(ref) + 2))
     # (b) output-buffer growth settings
     for g in case["growth"][1:]:
-        vg = machine(case, growth=g)
+        vg = new_machine(case, growth=g)
         _same(found, "growth:%s/%s" % (g[0], g[1]), ref, drive(vg, vg.run_code_py, inputs, [], words, len(ref) + 2))
     # (c) decompiled() compiles again and behaves identically
     text = vm0.decompiled
@@ -294,7 +296,7 @@ def run_case(case):
         _same(found, "width:32-vs-64", ref, drive(other, other.run_code_py, inputs, [], words, len(ref) + 2))
     # (e) single-stepping to the end, and a generated interleaving of step and resume segments
     budget = 8 * model.steps + 64
-    vs = machine(case)
+    vs = new_machine(case)
     vs.begin(inputs)
     err, taken = ("none", 0) if vs.is_done else vs.step_n(budget)
     if err == "none" and not vs.is_done:
@@ -303,7 +305,7 @@ def run_case(case):
     else:
         _same(found, "step:all-steps", [final], [("step", err, strip(vs.snapshot()))])
     if case["schedule"]:
-        vx = machine(case)
+        vx = new_machine(case)
         vx.begin(inputs)
         err = "none"
         total = 0
@@ -362,13 +364,22 @@ def _same(found, bucket, ref, got, extra=None):
 
 
 # ------------------------------------------------------------------------------------------------------------ known findings
-def _model_of(case):
+def _model_of(case, calls=False):
     m = MF.Machine(case["source"], case["bits"], case["stack"], case["recursion"], budget=MODEL_BUDGET)
     try:
-        drive(m, m.run, {k: bytes.fromhex(v) for k, v in case["inputs"].items()}, [], list(m.prog.words), MODEL_BUDGET)
+        drive(m, m.run, {k: bytes.fromhex(v) for k, v in case["inputs"].items()}, case["calls"] if calls else [], list(m.prog.words), MODEL_BUDGET)
     except (MF.BudgetExceeded, ValueError):
         pass
     return m
 
 
-KNOWN = {}
+def known_call_at_do_body_end(case, vio):
+    """call() from Python while the program is paused on a 'pause' that is the last instruction of a do-loop body: the end of the
+    called word is taken for the end of the loop body and the loop index advances once more"""
+    return (vio.get("bucket", "").startswith("model:calls:") and bool(case.get("calls"))
+            and "call-at-do-body-end" in _model_of(case, calls=True).flags)
+
+
+KNOWN = {
+    "forth_call_at_do_body_end": known_call_at_do_body_end,
+}
